@@ -108,6 +108,24 @@ func verifyVia(x *X, ep string, env *gobl.Envelope, keyIdx int, chunk int) (ok b
 	var pub *dsig.PublicKey
 	pubJSON := ""
 	switch {
+	case keyIdx >= 500:
+		// the signer's own key filed under another key id (a relabelled copy from a key store)
+		var m map[string]any
+		json.Unmarshal([]byte(PubKeyJSON(keyIdx-500)), &m)
+		m["kid"] = "relabelled-" + fmt.Sprint(m["kid"])
+		b, _ := json.Marshal(m)
+		pubJSON = string(b)
+		pub = new(dsig.PublicKey)
+		if err := json.Unmarshal(b, pub); err != nil {
+			return false, "harness: " + err.Error(), false
+		}
+	case keyIdx >= 400:
+		// the signer's own key without a key id
+		pubJSON = PubKeyNoKidJSON(keyIdx - 400)
+		pub = new(dsig.PublicKey)
+		if err := json.Unmarshal([]byte(pubJSON), pub); err != nil {
+			return false, "harness: " + err.Error(), false
+		}
 	case keyIdx >= 300:
 		// a nil key handed to the library
 		pub = nil
